@@ -25,14 +25,27 @@ def register(S):
                    "not haskey(self.fd_to_conn, fd) and unchanged_except(self.fd_to_conn, fd)", CONNS_OK]}},
                modifies=["self.fd_to_conn"])
     # ---- closing the base server: interface contract --------------------------------------------------------------------------
-    S.contract(F + "Server.close", params={"self": "obj:Server"}, trusted=True,
-               note="ASSUMED interface (sets of socket objects are not modelled): idempotent; the listener is shut down and closed, every "
-                    "socket in self.clients is shut down and closed, self.clients is emptied; does not touch fd_to_conn",
-               ensures={"closed": ("self._closed and not self.active and dict_empty(self.clients)", P17)},
-               raises={}, modifies=["self._closed", "self.active", "self.clients"])
+    S.declare_fields("Server", auto_register="val", registrar="any", port="val")
+    LISTENER_DOWN = ("shutdown_attempted_on(self.listener) and called_and_returned_attr(self.listener, 'close')")
+    S.contract(F + "Server.close", params={"self": "obj:Server"}, abstract_calls=LOG, merge_iteration=True,
+               dispatch=[("self._closed", "again"), (None, "first")],
+               behaviours={
+                   "again": dict(requires=["self._closed"], modifies=[], raises={},
+                                 ensures={"closing_twice_is_harmless": ("n_events() == 0 and self._closed", P17)}),
+                   "first": dict(requires=["not self._closed"], effects={"normal": (0, 9), "raise": (0, 9)},
+                                 ensures={"closed": ("self._closed and not self.active and dict_empty(self.clients)", P17),
+                                          "listener_shut_down_and_closed": (LISTENER_DOWN, P17),
+                                          "every_tracked_client_visited": ("n_ev('Loop') == 1", P17)},
+                                 raises={"BaseException": {"props": P17, "state": ["self._closed and not self.active"],
+                                                           "modifies": ["self._closed", "self.active", "self.clients"]}},
+                                 modifies=["self._closed", "self.active", "self.clients"]),
+               },
+               loops={0: {"rest": "todo", "modifies": [], "props": P17, "invariant": ["self._closed and not self.active"],
+                          # each tracked client socket: a shutdown is attempted (its failure ignored), then it is closed
+                          "body_events": ["shutdown_attempted_on(item) and called_and_returned_attr(item, 'close')"]}})
     # ---- closing a thread-pool server terminates every connection it still serves ---------------------------------------------
     S.contract(F + "ThreadPoolServer.close", params={"self": "obj:ThreadPoolServer"}, merge_iteration=True,
-               requires=[CONNS_OK], effects={"normal": (0, 4), "raise": (0, 4)},
+               requires=[CONNS_OK, "implies(self._closed, not self.active)"], effects={"normal": (0, 4), "raise": (0, 4)},
                ensures={"base_server_closed": ("self._closed and not self.active", P17),
                         "no_connection_left": ("dict_empty(self.fd_to_conn)", P17)},
                raises={"BaseException": {"props": P17, "modifies": ["**"]}}, modifies=["**"],
@@ -71,6 +84,7 @@ def register(S):
                modifies=["self.clients"])
     # ---- a one-shot server serves one client and then shuts itself down, whatever happened -------------------------------------
     S.contract(F + "OneShotServer._accept_method", params={"self": "obj:OneShotServer", "sock": "val"},
+               requires=["implies(self._closed, not self.active)"],
                ensures={"serves_then_closes": ("n_callees('_authenticate_and_serve_client') == 1 and n_callees('close') == 1 and n_events() == 2 and "
                                                "same(callee_arg('_authenticate_and_serve_client', 0, 'sock'), sock)", P17),
                         "closed": ("self._closed and not self.active", P17)},
